@@ -118,8 +118,23 @@ func offPlus(off Term, k int64) Term {
 	return Add(off, IntLit(k))
 }
 
+// frozenState is the immutable post-init content of frozen globals.
+var frozenState = func() *State {
+	s := &State{heap: map[Sort]Term{}, ghost: map[string]Term{}}
+	for _, hs := range heapSorts {
+		s.heap[hs] = Term{"FG_" + sortTag(hs), heapSort(hs)}
+	}
+	s.next = Term{"FG_next", SInt}
+	s.mdom = Term{"FG_mdom", SArr(SInt, SArr(SInt, SBool))}
+	s.mlen = Term{"FG_mlen", SArr(SInt, SInt)}
+	return s
+}()
+
 // load reads a value of Go type t at (obj, off).
 func (fc *FnCtx) load(s *State, t types.Type, obj, off Term) Value {
+	if !fc.initPhase && fc.eng.frozenIDs[obj.S] {
+		s = frozenState
+	}
 	mode := fc.mode
 	switch u := t.Underlying().(type) {
 	case *types.Pointer:
